@@ -927,7 +927,14 @@ class Engine:
             m = self.prog.find_method(obj.cls, name)
             # data descriptors (properties) take precedence over instance dict
             if m is not None and m[0] == "property":
-                return self.call_value(BoundMethod(obj, m[1]["get"]), [], {})
+                try:
+                    return self.call_value(BoundMethod(obj, m[1]["get"]), [], {})
+                except PyRaise as e:
+                    # Python: an AttributeError raised by the property getter makes the lookup fall back to __getattr__
+                    ga = self.prog.find_method(obj.cls, "__getattr__")
+                    if e.exc != "AttributeError" or ga is None:
+                        raise
+                    return self.call_value(BoundMethod(obj, ga[1]), [name], {})
             if name in flds:
                 return self._fld(flds[name], obj)
             if m is not None:
